@@ -363,6 +363,10 @@ def main(argv, here, repo):
             small, tried = minimise(eng, case, bucket, budget)
             if known_mod.match(kf, pid, bucket, small) is not None:
                 small = case  # do not shrink an unlisted failure into a listed one
+            for b, d in _replay_safe(eng, small):
+                if b == bucket:
+                    detail = d
+                    break
         rel = _write_replay(here, pid, bucket, small, detail, seed, args.tier)
         violations.append((bucket, rel))
 
